@@ -35,6 +35,26 @@ static void s_destroy_callback(void *arg) {
     aws_atomic_store_int(&scheduler->should_exit, 1U);
     aws_condition_variable_notify_all(&scheduler->thread_data.c_var);
     aws_thread_join(&scheduler->thread);
+
+    /* The thread is gone. Anything still sitting in the cross-thread queues never reached the task scheduler:
+     * hand it over now so the clean up below invokes those tasks with the canceled status instead of losing them,
+     * and process (and free) the pending cancellations. */
+    while (!aws_linked_list_empty(&scheduler->thread_data.scheduling_queue)) {
+        struct aws_linked_list_node *node = aws_linked_list_pop_front(&scheduler->thread_data.scheduling_queue);
+        struct aws_task *task = AWS_CONTAINER_OF(node, struct aws_task, node);
+        if (task->timestamp) {
+            aws_task_scheduler_schedule_future(&scheduler->scheduler, task, task->timestamp);
+        } else {
+            aws_task_scheduler_schedule_now(&scheduler->scheduler, task);
+        }
+    }
+    while (!aws_linked_list_empty(&scheduler->thread_data.cancel_queue)) {
+        struct aws_linked_list_node *node = aws_linked_list_pop_front(&scheduler->thread_data.cancel_queue);
+        struct cancellation_node *cancellation_node = AWS_CONTAINER_OF(node, struct cancellation_node, node);
+        aws_task_scheduler_cancel_task(&scheduler->scheduler, cancellation_node->task_to_cancel);
+        aws_mem_release(scheduler->allocator, cancellation_node);
+    }
+
     aws_task_scheduler_clean_up(&scheduler->scheduler);
     aws_condition_variable_clean_up(&scheduler->thread_data.c_var);
     aws_mutex_clean_up(&scheduler->thread_data.mutex);
